@@ -20,6 +20,9 @@ func run(c *harness.Ctx) {
 				c.Inconclusive("setup failed: " + err.Error())
 				return
 			}
+			if h.RealManager {
+				c.Count("histories_with_the_real_account_manager", 1)
+			}
 			for _, f := range attcommon.Judge(h, tr) {
 				if f.Prop != "C01" {
 					continue
@@ -39,6 +42,42 @@ func run(c *harness.Ctx) {
 			}
 		})
 	}
+	// duties with hundreds of our validators in one slot (an operator with thousands of validators), delivered twice
+	for k := 0; k < c.N(6, 120); k++ {
+		id := fmt.Sprintf("large-duty%d", k)
+		c.Case(id, func() {
+			r := c.Rand("large", k)
+			nVal := 200 + r.Intn(500)
+			h := &attcommon.History{SlotsPerEpoch: 32, NVal: nVal, Dirk: r.Intn(2) == 0, Merge: r.Intn(2) == 0, RealManager: r.Intn(3) == 0}
+			nCom := uint64(1 + r.Intn(4))
+			slot := uint64(64 + r.Intn(64))
+			mk := func(s uint64) attcommon.Run {
+				run := attcommon.Run{Slot: s, Sizes: map[uint64]uint64{}, DataKind: "ok"}
+				for i := 0; i < nVal; i++ {
+					run.Entries = append(run.Entries, attcommon.Entry{Validator: uint64(100 + i), Committee: uint64(i) % nCom, Position: uint64(i) / nCom})
+				}
+				for cm := uint64(0); cm < nCom; cm++ {
+					run.Sizes[cm] = uint64(nVal)/nCom + 2
+				}
+				return run
+			}
+			h.Runs = []attcommon.Run{mk(slot), mk(slot), mk(slot + 1)}
+			tr, err := attcommon.Execute(h, r)
+			if err != nil {
+				c.Inconclusive("setup failed: " + err.Error())
+				return
+			}
+			for _, f := range attcommon.Judge(h, tr) {
+				if f.Prop == "C01" {
+					c.Violate(f.Key+":large-duty", f.What, id, map[string]any{"validators": nVal, "committees": nCom, "slot": slot})
+				}
+			}
+			c.Count("large_duty_sign_requests", int64(len(tr.Signs)))
+			c.Count("validators_in_large_duties", int64(nVal))
+			c.Eval(1)
+			c.Distinct(fmt.Sprintf("large|%d|%d", nVal/128, nCom))
+		})
+	}
 	c.Case("first-touch-storm", func() {
 		epochs := c.N(2400, 80000)
 		fs, reqs := attcommon.Storm(c.Rand("storm"), epochs)
@@ -56,7 +95,7 @@ func main() {
 	harness.Main(&harness.Spec{
 		Property:    "C01",
 		Level:       "exploration",
-		Rule:        "histories of 2-10 Attest calls on one real attester over <=8 validators and <=4 epochs: re-delivery of a slot, re-assignment of a validator within the epoch, late duties of the previous epoch, overlapping runs released from a gate, attestation data scripted as ok/error/wrong slot/target above or below the duty epoch/source above target (unique block root per reply), failures of the accounts provider, per-validator signing faults and submission; every SignBeaconAttestations request recorded at the signer boundary. distinct = (runs, data kinds, repeat/skip/overlap/account-kind flags, requests, submissions); non-trivial = some validator has two duties in one epoch or some validator is skipped",
+		Rule:        "histories of 2-10 Attest calls on one real attester over <=8 validators and <=4 epochs: re-delivery of a slot, re-assignment of a validator within the epoch, late duties of the previous epoch, overlapping runs released from a gate, attestation data scripted as ok/error/wrong slot/target above or below the duty epoch/source above target (unique block root per reply), failures of the accounts provider, per-validator signing faults and submission; every SignBeaconAttestations request recorded at the signer boundary; a quarter of the histories look the accounts up through the real wallet / Dirk account manager; a few duties hold 200-700 of our validators in one slot and are delivered twice. distinct = (runs, data kinds, repeat/skip/overlap/account-kind flags, requests, submissions); non-trivial = some validator has two duties in one epoch or some validator is skipped",
 		Batches:     func(string) int { return 8 },
 		Parallel:    8,
 		Run:         run,
